@@ -124,29 +124,59 @@ def classify(ck, prog, f, seg):
                 false_t = [tb for v, tb in t["targets"] if v == "0"]
                 conds.append((b, c.op if a is lw else {"<": ">", ">": "<", "==": "==", "!=": "!=", "<=": ">=", ">=": "<="}[c.op],
                               k, true_t, false_t))
-    eq1 = [c for c in conds if c[1] == "==" and c[2] is not None and c[2].get("scalar") == "1"]
-    lts = [c for c in conds if c[1] == "<" and c[2] is not None and (c[2].get("def", "").endswith("SMALL_POLY_DEGREE") or "scalar" in c[2])]
-    ok_shape = len(eq1) == 1 and len(lts) == 1
-    ck.ob("K", f"{f.nname.split('::')[-1]}:conditions", ok_shape,
-          f"{f.nname.split('::')[-1]} classifies by `poly.len() == 1`, then `poly.len() < SMALL_POLY_DEGREE`, else large", loc=f.loc())
-    if not ok_shape:
-        return
-    e, l = eq1[0], lts[0]
-    region_single = set().union(*[reach(f, [(tb, S)], avoid=frozenset([(e[0], T)])) for tb in e[3]])
-    region_rest = set().union(*[reach(f, [(tb, S)], avoid=frozenset([(e[0], T)])) for tb in e[4]])
-    region_small = set().union(*[reach(f, [(tb, S)], avoid=frozenset([(l[0], T), (e[0], T)])) for tb in l[3]])
-    region_large = set().union(*[reach(f, [(tb, S)], avoid=frozenset([(l[0], T), (e[0], T)])) for tb in l[4]])
-    want = {"single_value": region_single, "small_poly": region_small & region_rest, "large_poly": region_large & region_rest}
+    # semantic form: for every polynomial length the decisions on that length leave exactly one class of push sites reachable —
+    # length 1: single value, 1 < length < SMALL_POLY_DEGREE: small, otherwise: large — whatever the order and spelling of the tests
+    def kval(k):
+        if k is None:
+            return None
+        if "scalar" in k and str(k["scalar"]).lstrip("-").isdigit():
+            return int(k["scalar"])
+        d = k.get("def") or k.get("def_name") or ""
+        c = prog.consts.get(d) or next((v for n, v in prog.consts.items() if d and n.endswith(d.split("::")[-1]) and "boundary" in n), None)
+        return int(c["scalar"]) if c and str(c.get("scalar") or "").isdigit() else None
+    lenconds = [(b, op, kval(k), tt, ft) for b, op, k, tt, ft in conds if kval(k) is not None]
+    small = next((int(v["scalar"]) for n, v in prog.consts.items() if n.endswith("boundary::SMALL_POLY_DEGREE") and str(v.get("scalar") or "").isdigit()), None)
     ctor = {"single_value": "SingleValueConstraint::new", "small_poly": "SmallPolyConstraint::new", "large_poly": "LargePolyConstraint::new"}
-    for kind, region in want.items():
+    pushes = {kind: pushes_to(f, PG, f"{seg}_{kind}") for kind in ctor}
+    if not lenconds or small is None or not all(pushes.values()):
+        ck.ob("K", f"{f.nname.split('::')[-1]}:conditions", False,
+              f"{f.nname.split('::')[-1]} classifies by the length of the constraint polynomial: 1 / below SMALL_POLY_DEGREE / otherwise", loc=f.loc(),
+              detail="no decision on poly().len() against a constant, or a class that is never pushed")
+        return
+    ck.ob("K", f"{f.nname.split('::')[-1]}:conditions", True,
+          f"{f.nname.split('::')[-1]} classifies by the length of the constraint polynomial ({len(lenconds)} decisions on poly().len())", loc=f.loc())
+
+    def holds(op, L, k):
+        return {"==": L == k, "!=": L != k, "<": L < k, "<=": L <= k, ">": L > k, ">=": L >= k}[op]
+    bad = {kind: None for kind in ctor}
+    for L in sorted({1, 2, 3, small - 1, small, small + 1, 4 * small}):
+        blocked = set()
+        for b, op, k, tt, ft in lenconds:
+            for tb in (ft if holds(op, L, k) else tt):
+                blocked.add((b, tb))
+        seen, st = {0}, [0]
+        while st:
+            x = st.pop()
+            for y in f.succ[x]:
+                if (x, y) in blocked and sum(1 for z in f.succ[x] if z == y) == 1:
+                    continue
+                if y not in seen:
+                    seen.add(y)
+                    st.append(y)
+        want_kind = "single_value" if L == 1 else ("small_poly" if L < small else "large_poly")
+        for kind in ctor:
+            reachable = any(b in seen for b, t in pushes[kind])
+            if reachable != (kind == want_kind) and bad[kind] is None:
+                bad[kind] = (L, reachable)
+    for kind in ctor:
         fld = f"{seg}_{kind}"
-        ps = pushes_to(f, PG, fld)
-        ok = bool(ps) and all((b, T) in region for b, t in ps)
-        others = [k for k in want if k != kind]
-        exclusive = all(not any((b, T) in want[o] for b, t in ps) for o in others)
+        ps = pushes[kind]
         right_ctor = bool(ps) and all(any(n.endswith(ctor[kind]) for n in g.callee_names_in(g.walk(ops=[t["args"][1]], at=(b, T)))) for b, t in ps)
-        ck.ob("K", f"{f.nname.split('::')[-1]}:{fld}", ok and exclusive and right_ctor,
-              f"constraints of class `{KINDS[kind]}` are converted with {ctor[kind]} and pushed to `{fld}` (and only they)", loc=f.loc())
+        ok = bad[kind] is None and right_ctor
+        ck.ob("K", f"{f.nname.split('::')[-1]}:{fld}", ok,
+              f"constraints of class `{KINDS[kind]}` are converted with {ctor[kind]} and pushed to `{fld}` (and only they)", loc=f.loc(),
+              detail=None if ok else (f"a polynomial of length {bad[kind][0]} {'reaches' if bad[kind][1] else 'does not reach'} the push into `{fld}`"
+                                      if bad[kind] else "the pushed value is not built by the class's constructor"))
 
 
 def units(ck, prog):
